@@ -600,7 +600,7 @@ def valToks (d : Dialect) : Val → List Tok
   | .datetime y m dd h mi s us => [.str (fmt (fmtMid dateTimeFmt) [y, m, dd, h, mi, s, us] [])]
   | .num neg mant exp => numToks neg mant exp
   | .instInt i => intToks i
-  | .instStr s => [.str s]      -- what the statement needs; the code does not deliver it (see C02_instance_…_FALSE)
+  | .instStr s => [.str s]
   | .seq l => .punct 40 :: (seqToks d l ++ [.punct 41])
 def seqToks (d : Dialect) : List Val → List Tok
   | [] => []
@@ -618,7 +618,7 @@ def Adm (d : Dialect) : Val → Bool
   | .num _ mant exp => identLike mant &&
       (match exp with | some (sg, e) => (sg = 43 || sg = 45) && identLike e | none => true)
   | .seq l => AdmList d l
-  | .instStr _ => false
+  | .instStr s => decide (admissible d s)
   | _ => true
 def AdmList (d : Dialect) : List Val → Bool
   | [] => true
@@ -759,7 +759,11 @@ theorem tokens_render (d : Dialect) (v : Val) (rest : Str) (ha : Adm d v = true)
     cases tokens d rest <;> simp
   | num neg mant exp => simpa [render, valToks] using tokens_num d neg mant exp rest ha hr
   | instInt i => simpa [render, valToks] using tokens_int d i rest hr
-  | instStr s => simp [Adm] at ha
+  | instStr s =>
+    simp only [Adm, decide_eq_true_eq] at ha
+    simp only [render, valToks]
+    rw [tokens_string d s rest ha (okAfter_head39 rest hr)]
+    cases tokens d rest <;> simp
   | seq l =>
     simp only [Adm] at ha
     simp only [render, valToks, seq_consts.1, seq_consts.2.1, List.cons_append, List.nil_append, List.append_assoc]
